@@ -231,18 +231,6 @@ theorem cart_axis_perm_tvdRHS (hact : ∀ d, M.kind.active (σ d) = M.kind.activ
 
 end perm
 
-/-- the exchange `x ↔ y` -/
-def swapXY : Dir → Dir
-  | .x => .y
-  | .y => .x
-  | .z => .z
-
-theorem swapXY_invol (d : Dir) : swapXY (swapXY d) = d := by cases d <;> rfl
-
-/-- `x ↔ y` keeps the active directions of every grid class with at least two dimensions -/
-theorem swapXY_active (k : Kind) (h2 : 2 ≤ k.dim) (d : Dir) : k.active (swapXY d) = k.active d := by
-  cases d <;> simp [swapXY, Kind.active, h2]
-
 /-- `Grid2D` / `Grid3D` with `x` and `y` exchanged -/
 theorem cart_swapXY_diffusionRow (M : Mesh α) (hk : M.kind = .cart2 ∨ M.kind = .cart3)
     (D : FaceFld α) (φ : CellFld α) (c : Idx) :
